@@ -59,6 +59,7 @@ pub const FILE_NAMES: &[(&str, &str)] = &[
     ("/abs/nul\u{0}x.js", "nul"),
     ("LONG", "long"),
     ("LONGCJK", "long-cjk"),
+    ("/abs/issue#12/what?.js", "hash-and-question-mark"),
 ];
 
 fn file_name(rng: &mut Rng) -> (String, &'static str) {
@@ -329,7 +330,11 @@ fn gen_source(rng: &mut Rng, big: bool) -> (String, &'static str, bool) {
     o.crlf = rng.chance(1, 8);
     o.unicode = rng.chance(1, 4);
     let (p, _) = jsgen::gen_program(rng, o);
-    match rng.below(24) {
+    match rng.below(26) {
+        24 | 25 => {
+            let n = *rng.pick(jsgen::BOUNDARY);
+            (jsgen::gen_wide(rng, n), "wide-expression", true)
+        }
         21..=23 => {
             let n = rng.range(1, 6);
             (jsgen::gen_zoo(rng, n), "syntax-zoo", true)
